@@ -59,7 +59,10 @@ def c19_good():
     # a machine-written table on one line of 70000 bytes in the epilogue, and one in an action
     wide = yfile('%token <val> NUM\n%type <val> e\n%start e\n', "e : NUM { $$ = $1 } ;\n", epi=EPI + '// ' + '0123456789' * 7000 + '\n// WIDE-END\n')
     wideact = yfile('%token <val> NUM\n%type <val> e\n%start e\n', "e : NUM { $$ = $1 /* " + 'abcdefghij' * 7000 + " */ } ;\n", epi=EPI + '// WIDEACT-END\n')
-    return [('big', big), ('small', small), ('no_epilogue', noepi), ('wide_line', wide), ('wide_action', wideact)]
+    # the section mark inside the epilogue (a format string with an escaped percent sign, a comment)
+    pct = yfile('%token <val> NUM\n%type <val> e\n%start e\n', "e : NUM { $$ = $1 } ;\n",
+                epi='\n// 100%% of it\nfunc pct(v int) string { return fmt.Sprintf("%d%%\\n", v) }\n/* %% */\n' + EPI + '// PCT-END\n')
+    return [('big', big), ('small', small), ('no_epilogue', noepi), ('wide_line', wide), ('wide_action', wideact), ('percent_epilogue', pct)]
 
 
 def c19_foreign():
@@ -440,6 +443,16 @@ def c13_texts(ctx):
         texts.append(('tcr_stray%d' % k, small[:i] + b'\r' + small[i:]))
         j = crlf.find(b'\r', rnd.randrange(len(crlf) - 2))
         texts.append(('tcr_cut%d' % k, crlf[:j + 1]))
+    # a small well-formed grammar with an exponentially large LR(0) automaton (Ukkonen's family, about n*2^n states): the state
+    # limit must stop the construction (names starting with big_ get a longer deadline: printing 2000 states takes seconds)
+    n = 10
+    low, up = [chr(97 + i) for i in range(n)], [chr(65 + i) for i in range(n)]
+    ex = ['%{\npackage main\n%}\n%union {\n\tv int\n}\n%%\n', 'start:\n    ' + '\n  | '.join('p%d' % i for i in range(n)) + '\n  ;\n']
+    for i in range(n):
+        alts = ["'%s' p%d" % (low[j], i) for j in range(n) if j != i] + ["'%s' q%d" % (low[i], i), "'%s'" % up[i]]
+        ex.append('p%d:\n    ' % i + '\n  | '.join(alts) + '\n  ;\n')
+        ex.append('q%d:\n    ' % i + '\n  | '.join(["'%s' q%d" % (low[j], i) for j in range(n)] + ["'%s'" % up[i]]) + '\n  ;\n')
+    texts.append(('big_exp%d' % n, (''.join(ex) + '%%\n').encode()))
     # non-ASCII letters and digits where identifiers, numbers and literals are expected
     for k, ch in enumerate(['\u0663', '\uff11', '\u0967', '\u00e9', '\u4e2d', '\u00b2']):
         for j, tmpl in enumerate(['%%token A %s\n%%%%\na : A ;\n', '%%token A\n%%%%\na : A %s ;\n', '%%token %s\n%%%%\na : %s ;\n', "%%token A\n%%%%\na : '%s' A ;\n", '%s', '%%token A 1%s\n%%%%\na : A ;\n', '%%token A\n%%%%\na : A { $%s } ;\n']):
@@ -506,8 +519,11 @@ def run_C13(ctx):
             paths.append(p)
         # in-process: generate go, generate typescript, debug on every text, deadline per entry point
         k = 12
+        small = [p for (name, _), p in zip(texts, paths) if not name.startswith('big_')]
+        large = [p for (name, _), p in zip(texts, paths) if name.startswith('big_')]
         with cf.ThreadPoolExecutor(k) as ex:
-            parts = list(ex.map(lambda idx: run_gen(paths[idx::k], 4000), range(k)))
+            parts = list(ex.map(lambda idx: run_gen(small[idx::k], 4000), range(k)))
+        parts.append(run_gen(large, 25000))
         res = {}
         for part in parts:
             for o in part:
@@ -520,7 +536,7 @@ def run_C13(ctx):
                 ctx.violation('no-failing-input-found', 'C13 harness: no result for input %s' % name, dict(input_name=name, text=b.decode('latin1')), interface='I10')
                 continue
             if o.get('timeout'):
-                ctx.violation('counterexample', 'yaccgo (%s) does not finish within 4 s on the %d-byte input %s (normal runs take milliseconds): %r' % (o.get('stage'), len(b), name, b[-80:]),
+                ctx.violation('counterexample', 'yaccgo (%s) does not finish within %d s on the %d-byte input %s (normal runs take milliseconds): %r' % (o.get('stage'), 25 if name.startswith('big_') else 4, len(b), name, b[-80:]),
                               dict(input_name=name, text=b.decode('latin1'), text_sha=vlib.sha(b), stage=o.get('stage'), observed='no termination within the deadline', expected='output or diagnostic'), interface='I10')
                 continue
             if o.get('crash') is not None:
@@ -547,14 +563,14 @@ def run_C13(ctx):
         texts, paths = all_texts, all_paths
         # the real CLI in separate processes on a sample (process-level: exit, no hang)
         rnd = random.Random(ctx.seed + 77)
-        sample = [i for i, (n, _) in enumerate(texts) if n.startswith('t')] + rnd.sample(range(len(texts)), min(len(texts), 60 if ctx.quick else 600))
+        sample = [i for i, (n, _) in enumerate(texts) if n.startswith('t') or n.startswith('big_')] + rnd.sample(range(len(texts)), min(len(texts), 60 if ctx.quick else 600))
         yaccgo = os.path.join(bindir, 'yaccgo')
 
         def cli(i):
             outs = []
             for args in (['generate', 'go', paths[i], os.path.join(work, 'o%d.go' % i)], ['debug', paths[i]]):
                 try:
-                    r = subprocess.run([yaccgo] + args, capture_output=True, timeout=6)
+                    r = subprocess.run([yaccgo] + args, capture_output=True, timeout=30 if texts[i][0].startswith('big_') else 6)
                     outs.append(r.returncode)
                 except subprocess.TimeoutExpired:
                     outs.append('timeout')
@@ -565,7 +581,7 @@ def run_C13(ctx):
                 name, b = texts[i]
                 if 'timeout' in outs:
                     which = 'generate go' if outs[0] == 'timeout' else 'debug'
-                    ctx.violation('counterexample', '`yaccgo %s` does not finish within 6 s on the %d-byte input %s: %r' % (which, len(b), name, b[-80:]),
+                    ctx.violation('counterexample', '`yaccgo %s` does not finish within %d s on the %d-byte input %s: %r' % (which, 30 if name.startswith('big_') else 6, len(b), name, b[-80:]),
                                   dict(input_name=name, text=b.decode('latin1'), text_sha=vlib.sha(b), stage='cli ' + which, observed='no termination within the deadline', expected='output or diagnostic'), interface='I10')
         ctx.extra['cli_sampled'] = len(sample)
     finally:
